@@ -65,6 +65,9 @@ def _shape_runs(prop, tier):
     # still inside the unlimited stage (its drain loop is the safety net for a missed hand-off at the tail)
     for st in ('uup', 'pup', '2up'):
         add(2, st, 2, 1, budget=120)
+    # a limit-2 stage between serial stages, four items, two workers: the slot hand-over between a completing item's
+    # callback and the scheduling thread (a slot returned twice shows up as a second concurrent sink invocation)
+    add(2, 'p2p', 4, 1, budget=150)
     if not q:
         for st in ('uup', 'pup'):
             add(2, st, 2, 2, budget=400)
